@@ -2,6 +2,7 @@ package props
 
 import (
 	"fmt"
+	"go/token"
 	"go/types"
 	"strings"
 
@@ -18,6 +19,9 @@ func init() {
 		Assumptions: []string{"a closed Done channel makes the select case ready", "close(ch) by the only sender-side owner"},
 		Run:         runC10,
 		Controls: []Control{
+			{Name: "send-results-read-the-other-way-round", File: "internal/minibus/bus.go", Old: "\t\tok, active := l.send(ctx, event)\n", New: "\t\tactive, ok := l.send(ctx, event)\n", Expect: "R10.9"},
+			{Name: "alive-flipped", File: "internal/minibus/bus.go", Old: "\treturn l.ctx.Err() == nil\n", New: "\treturn l.ctx.Err() != nil\n", Expect: "R10.9"},
+			{Name: "pullid-subscribes-on-callers-context", File: "pkg/resource/collection.go", Old: "\tctx, cancel := context.WithCancel(ctx)\n\tchanges := c.Pull(ctx, opts...)\n", New: "\tchanges := c.Pull(ctx, opts...)\n\tctx, cancel := context.WithCancel(ctx)\n", Expect: "R10.6"},
 			{Name: "pullid-forces-backpressure", File: "pkg/resource/collection.go", Old: "\tchanges := c.Pull(ctx, opts...)\n", New: "\tchanges := c.Pull(ctx, append(append([]ReadOption{}, opts...), WithBackpressure(true))...)\n", Expect: "R10.8"},
 			{Name: "collect-filters-in-place", File: "internal/minibus/bus.go", Old: "\tvar activeListeners []*listener\n", New: "\tactiveListeners := b.listeners[:0]\n", Expect: "R10.5"},
 			{Name: "value-pull-unconditional-send", File: "pkg/resource/value.go", Old: "\t\t\t\tcontinue\n\t\t\t}\n\t\t\tlast = change.Value\n\t\t\tselect {\n\t\t\tcase <-ctx.Done():\n\t\t\t\treturn // give up sending\n\t\t\tcase typedEvents <- change:\n\t\t\t}", New: "\t\t\t\tcontinue\n\t\t\t}\n\t\t\tlast = change.Value\n\t\t\ttypedEvents <- change", Expect: "R10.1"},
@@ -42,6 +46,8 @@ func runC10(c *an.Ctx) {
 	r106(c, "R10.6")
 	r107(c)
 	r108(c, "R10.8")
+	r109(c, "R10.9")
+	c.Min("R10.9", 3)
 	c.Min("R10.1", 5)
 	c.Min("R10.2", 5)
 	c.Min("R10.3", 3)
@@ -508,8 +514,21 @@ func r106(c *an.Ctx, rule string) {
 				continue
 			}
 			// the producer context must be cancellable here and cancelled on those exits
+			// (what the context variable holds AT the producer call: a cancellable context derived only afterwards does
+			// not stop the producer)
 			var cancel ssa.Value
-			for _, s := range an.Sources(prodCtx) {
+			atCall := an.ValuesAt(prodCtx)
+			if ld, isLoad := prodCtx.(*ssa.UnOp); isLoad && ld.Op == token.MUL {
+				if _, isAlloc := ld.X.(*ssa.Alloc); isAlloc {
+					if stores, _ := an.ReachingStores(ld); len(stores) > 0 {
+						atCall = nil
+						for _, st := range stores {
+							atCall = append(atCall, an.ValuesAt(st.Val)...)
+						}
+					}
+				}
+			}
+			for _, s := range atCall {
 				if ex, ok := s.(*ssa.Extract); ok && ex.Index == 0 {
 					if call, ok := ex.Tuple.(*ssa.Call); ok {
 						nm := an.CalleeName(call)
@@ -764,5 +783,253 @@ func r108(c *an.Ctx, rule string) {
 	c.Count("with_backpressure_calls", n)
 	if n == 0 {
 		c.Ok(rule, "module|no layer installs a delivery mode of its own", 0, "no call of resource.WithBackpressure outside tests")
+	}
+}
+
+// r109: what listener.send reports, and that Bus.Send reads it that way. listener.send has three outcomes, one per
+// select case: the sender's context is done (the send is abandoned), the listen context is done (nothing to deliver
+// to, not a failure), the event was handed over. Whatever the encoding - (ok, active bool) or an enumeration - the three
+// outcomes are reported by three different constant results, and Bus.Send gives up (returns false, skipping the
+// remaining listeners) for exactly the first of them and looks at what tells the second from the third (to schedule
+// the garbage collection). Read the other way round, one cancelled subscriber makes every Send stop at it: the
+// listeners registered after it never see another event and it is never collected.
+// Also: a listener counts as alive exactly while its listen context has no error.
+func r109(c *an.Ctx, rule string) {
+	ls := mustFunc(c, rule, "internal/minibus", "listener", "send")
+	send := mustFunc(c, rule, "internal/minibus", "Bus", "Send")
+	if ls == nil || send == nil {
+		return
+	}
+	lname := "(*internal/minibus.listener).send"
+	var sel *ssa.Select
+	an.Instrs(ls, func(in ssa.Instruction) {
+		if s, ok := in.(*ssa.Select); ok {
+			sel = s
+		}
+	})
+	nres := ls.Signature.Results().Len()
+	if sel == nil || nres == 0 {
+		c.Unk(rule, lname+"|result table", ls.Pos(), "no select / no result")
+		return
+	}
+	kind := func(i int) string {
+		st := sel.States[i]
+		if st.Dir == types.SendOnly {
+			return "delivered"
+		}
+		ctx, isDone := an.CtxDone(st.Chan)
+		if !isDone {
+			return "?"
+		}
+		for _, s0 := range an.Sources(ctx) {
+			if p, isP := s0.(*ssa.Parameter); isP && p.Parent() == ls {
+				return "sender done"
+			}
+			if _, _, f, isF := an.FieldOf(s0); isF && f == "ctx" {
+				return "listener done"
+			}
+			if u, isU := s0.(*ssa.UnOp); isU {
+				if _, _, f, isF := an.FieldOf(u.X); isF && f == "ctx" {
+					return "listener done"
+				}
+			}
+		}
+		return "?"
+	}
+	constOf := func(v ssa.Value) (string, bool) {
+		k, isC := v.(*ssa.Const)
+		if !isC || k.Value == nil {
+			return "", false
+		}
+		return k.Value.ExactString(), true
+	}
+	table := map[string][]string{}
+	okTable, why := true, ""
+	for _, r := range an.Returns(ls) {
+		ci := -1
+		for _, e := range an.GuardingEdges(r) {
+			bo, isBO := e.If.Cond.(*ssa.BinOp)
+			if !isBO || bo.Op != token.EQL {
+				continue
+			}
+			ex, isEx := bo.X.(*ssa.Extract)
+			if !isEx || ex.Tuple != ssa.Value(sel) || ex.Index != 0 {
+				continue
+			}
+			k, isC := an.ConstInt(bo.Y)
+			if !isC {
+				continue
+			}
+			if e.Branch {
+				ci = int(k)
+			} else if int(k) == len(sel.States)-2 && ci < 0 {
+				ci = len(sel.States) - 1 // the last case is the false edge of the last comparison
+			}
+		}
+		if ci < 0 || ci >= len(sel.States) {
+			continue
+		}
+		k := kind(ci)
+		if k == "?" {
+			okTable, why = false, "a select case that is neither a context's Done nor the delivery"
+			continue
+		}
+		tuple := make([]string, nres)
+		for i := 0; i < nres; i++ {
+			vals := an.ValuesAt(r.Results[i])
+			if len(vals) != 1 {
+				okTable, why = false, "outcome "+k+" is not reported by constants"
+				continue
+			}
+			cs, isC := constOf(vals[0])
+			if !isC {
+				okTable, why = false, "outcome "+k+" is not reported by constants"
+			}
+			tuple[i] = cs
+		}
+		if prev, dup := table[k]; dup && strings.Join(prev, ",") != strings.Join(tuple, ",") {
+			okTable, why = false, "outcome "+k+" is reported in two ways"
+		}
+		table[k] = tuple
+	}
+	if okTable && len(table) != 3 {
+		okTable, why = false, fmt.Sprintf("outcomes found: %v", an.SortedKeys(table))
+	}
+	if okTable {
+		j := func(k string) string { return strings.Join(table[k], ",") }
+		if j("sender done") == j("listener done") || j("sender done") == j("delivered") || j("listener done") == j("delivered") {
+			okTable, why = false, fmt.Sprintf("two outcomes are reported alike: sender done (%s), listener done (%s), delivered (%s)", j("sender done"), j("listener done"), j("delivered"))
+		}
+	}
+	c.Check(okTable, rule, lname+"|result table", ls.Pos(), "three outcomes, three different constant results",
+		"listener.send does not report its three outcomes (sender's context done / listen context done / delivered) by three different constant results: "+why)
+	if !okTable {
+		return
+	}
+	// Bus.Send's reading
+	sname := "(*internal/minibus.Bus).Send"
+	for _, cl := range an.CallsTo(send, "(*"+an.ModulePath+"/internal/minibus.listener).send") {
+		call, isCall := cl.(*ssa.Call)
+		if !isCall {
+			continue
+		}
+		// the value of a condition of Send under one outcome of the call
+		var eval func(v ssa.Value, k string, depth int) (string, bool)
+		eval = func(v ssa.Value, k string, depth int) (string, bool) {
+			if depth > 6 {
+				return "", false
+			}
+			if cs, isC := constOf(v); isC {
+				return cs, true
+			}
+			switch x := v.(type) {
+			case *ssa.Extract:
+				if x.Tuple == ssa.Value(call) && x.Index < nres {
+					return table[k][x.Index], true
+				}
+			case *ssa.Call:
+				if x == call && nres == 1 {
+					return table[k][0], true
+				}
+			case *ssa.UnOp:
+				if x.Op == token.NOT {
+					if b, ok := eval(x.X, k, depth+1); ok {
+						return fmt.Sprint(b != "true"), true
+					}
+				}
+			case *ssa.BinOp:
+				if x.Op == token.EQL || x.Op == token.NEQ {
+					a, oka := eval(x.X, k, depth+1)
+					b, okb := eval(x.Y, k, depth+1)
+					if oka && okb {
+						return fmt.Sprint((a == b) == (x.Op == token.EQL)), true
+					}
+				}
+			}
+			if vals := an.ValuesAt(v); len(vals) == 1 && vals[0] != v {
+				return eval(vals[0], k, depth+1)
+			}
+			return "", false
+		}
+		// abandoning: the edges that lead to `return false`
+		abortOK, found := true, false
+		for _, r := range an.Returns(send) {
+			isFalse := false
+			for _, v := range an.ValuesAt(r.Results[0]) {
+				if b, isC := an.ConstBool(v); isC && !b {
+					isFalse = true
+				}
+			}
+			if !isFalse {
+				continue
+			}
+			for _, e := range an.GuardingEdges(r) {
+				verdict := map[string]string{}
+				all := true
+				for _, k := range []string{"sender done", "listener done", "delivered"} {
+					b, ok := eval(e.If.Cond, k, 0)
+					if !ok {
+						all = false
+						break
+					}
+					verdict[k] = fmt.Sprint((b == "true") == e.Branch)
+				}
+				if !all {
+					continue // a condition about something else
+				}
+				found = true
+				if !(verdict["sender done"] == "true" && verdict["listener done"] == "false" && verdict["delivered"] == "false") {
+					abortOK = false
+				}
+			}
+		}
+		c.Check(found && abortOK, rule, sname+"|gives up only when the send itself was abandoned", call.Pos(), "returns false exactly for the outcome \"sender's context done\"",
+			"Bus.Send returns false (and skips the remaining listeners) for an outcome of listener.send other than \"the sender's context is done\": a subscriber that has cancelled then stops every later Send at its place in the list, listeners registered after it receive nothing more and it is never collected")
+		// the part of the result that tells a listener that is gone from a delivery is looked at
+		consulted := false
+		if nres == 1 {
+			consulted = true // an enumeration: the abandoning test above already distinguishes; collect is checked by R10.5
+			for _, u := range an.Referrers(call) {
+				if _, isDbg := u.(*ssa.DebugRef); !isDbg {
+					consulted = true
+				}
+			}
+		} else {
+			for i := 0; i < nres; i++ {
+				if table["listener done"][i] == table["delivered"][i] {
+					continue
+				}
+				for _, u := range an.Referrers(call) {
+					if ex, isEx := u.(*ssa.Extract); isEx && ex.Index == i {
+						for _, u2 := range an.Referrers(ex) {
+							if _, isDbg := u2.(*ssa.DebugRef); !isDbg {
+								consulted = true
+							}
+						}
+					}
+				}
+			}
+		}
+		c.Check(consulted, rule, sname+"|a listener whose context ended is noticed", call.Pos(), "the result that tells a gone listener from a delivery is used",
+			"Bus.Send never looks at the part of listener.send's result that says the listener is gone: cancelled listeners are never collected")
+	}
+	// alive (where it exists as a function of its own; R10.5 checks the test collect keeps a listener on)
+	if al := c.Prog.Func("internal/minibus", "listener", "alive"); al != nil {
+		ok := false
+		for _, r := range an.Returns(al) {
+			for _, v := range an.ValuesAt(r.Results[0]) {
+				x, trueMeansNil, isNT := an.NilTest(v)
+				if !isNT || !trueMeansNil {
+					continue
+				}
+				for _, s0 := range an.Sources(x) {
+					if cl, isC := s0.(*ssa.Call); isC && cl.Call.IsInvoke() && cl.Call.Method.Name() == "Err" {
+						ok = true
+					}
+				}
+			}
+		}
+		c.Check(ok, rule, "(*internal/minibus.listener).alive|true while the listen context has no error", al.Pos(), "returns ctx.Err() == nil",
+			"listener.alive does not report `ctx.Err() == nil`: the garbage collection keeps the cancelled listeners and drops the live ones, which never receive another event")
 	}
 }
